@@ -130,13 +130,10 @@ def param_binding(ctx, fn, block, operand):
     # (ArenaCow::clone borrows): it has to go through a routine that visits the items (detach / promote) as well.
     detaching = set()
     for (bi, k, det) in origins(fn, operand, 8):
-        if k == "agg" and det[0] == "runtime::Value":
-            detaching.add(chain_blocks(bi)[-1])
+        if k == "agg" and det[0] == "runtime::Value" and det[1] == "Str" and "alloc_str" in show(fn.deep(det[2][0])):
+            detaching.add(chain_blocks(bi)[-1])     # the string idiom: Value::Str(Owned(pool.alloc_str(..)))
         if k == "call" and det[0] in DETACH_OK:
             detaching.add(chain_blocks(bi)[-1])
-    for c in fn.calls():
-        if c.callee in DETACH_OK:
-            detaching.add(c.block)
     vs = None
     for S in sorted(fn.live):
         if fn.blocks[S]["t"]["k"] != "switch" or not fn.dominates(S, block):
@@ -165,6 +162,20 @@ def param_binding(ctx, fn, block, operand):
         ctx.ok(key, fn.where(block), "Borrowed ∧ pool.contains(..) -> pool.alloc_str(..) detach present")
     else:
         ctx.bad(key, fn.where(block), "parameter binding no longer detaches a borrowed alias of a pool slot (the caller's slot can be recycled while the callee still reads the parameter)")
+
+
+def param_binding_rule(ctx):
+    """The parameter-binding obligations on their own (shared with C05-R5: an argument array is a value of its own)."""
+    fn = ctx.need("runtime::Runtime::eval_function_call")
+    ctx.touch(fn)
+    n = 0
+    for b in sorted(fn.live):
+        for s in fn.blocks[b]["s"]:
+            rv = s["rv"]
+            if rv["k"] == "agg" and rv["adt"].endswith("LocalSlot") and len(rv["ops"]) >= 3:
+                param_binding(ctx, fn, b, rv["ops"][2])
+                n += 1
+    ctx.floor("parameter slots built in eval_function_call", n, 1)
 
 
 def r2_copy_before_free(ctx):
